@@ -306,6 +306,21 @@ func drawDecls(r *Rng, cfg SpecConfig, p *PkgSpec, pi int) {
 			f.Decls = append(f.Decls, md)
 		}
 	}
+	// a method declared through an alias of a package-level type belongs to that type
+	for _, f := range files {
+		for _, d := range f.Decls {
+			if d.Kind != "alias" || !r.P(cfg.PMethods) {
+				continue
+			}
+			for _, t := range typeDecls {
+				if t.Name == d.Target && t.Kind != "iface" && t.Kind != "generic" {
+					fnCount++
+					fl := file()
+					fl.Decls = append(fl.Decls, &Decl{Kind: "method", Name: fmt.Sprintf("ViaAlias%d", fnCount), Target: d.Name, Ptr: r.P(0.5)})
+				}
+			}
+		}
+	}
 	// constants and functions
 	for k := r.Intn(3); k > 0; k-- {
 		fnCount++
